@@ -522,11 +522,18 @@ Section Proofs.
     simpl fst; simpl snd. intros H. apply checked_ok in H as [-> HB]. split; auto.
     assert (Dll : a_latlon a = true -> d = 3 + b2n (a_temporal a)).
     { intros L. subst d. unfold eff_dim. now rewrite L. }
-    destruct (a_var_is_raw a); unfold WF; simpl; repeat split; auto;
-      try apply set_model_angles_length;
-      try (intros L; apply A3; auto; rewrite (Dll L); lia);
-      try (intros L; unfold set_model_angles; now rewrite L);
-      try (intros Ht; rewrite Ht; now apply set_model_angles_temporal).
+    assert (G : forall v, WF (mkState d (a_latlon a) (a_temporal a) v l an
+                (set_model_angles O d (a_angles a) (a_latlon a) (a_temporal a)) (a_nugget a)
+                (nabs O (match a_rescale a with None => default_rescale O c | Some x => x end))
+                (a_opts a) (a_bvar a) (a_blen a) (a_bnug a) (a_banis a) (a_bopts a))).
+    { intros v. unfold WF; simpl. split; [exact E1|]. split; [exact A1|].
+      split; [apply set_model_angles_length|]. split; [exact A2|].
+      split; [|split; [|split; [exact E2|apply abs_idem]]].
+      - intros L. split; [auto|]. split.
+        + apply A3; auto. rewrite (Dll L). lia.
+        + unfold set_model_angles. now rewrite L.
+      - intros Ht. rewrite Ht. now apply set_model_angles_temporal. }
+    destruct (a_var_is_raw a); [apply G|]. unfold with_var_raw; simpl. apply G.
   Qed.
 
   (* the canonical form: a well-formed state with every value inside its bounds IS the state
@@ -555,6 +562,14 @@ Section Proofs.
   Proof.
     intros HC HR HK. destruct (construct_WF_InB _ _ _ HC) as [W B].
     apply canonical; [eapply run_WF|eapply run_InB]; eauto.
+  Qed.
+
+  Theorem reachable_invariant c a ops s0 s :
+    construct O c a = Ok s0 -> run O c s0 ops = Ok s ->
+    WF s /\ (forallb (keeps_in_bounds c) ops = true -> InB c s).
+  Proof.
+    intros HC HR. destruct (construct_WF_InB _ _ _ HC) as [W B].
+    split; [eapply run_WF; eauto|]. intros HK. eapply run_InB; eauto.
   Qed.
 
   (* after ANY history (unchecked bounds included) one successful value assignment makes the
@@ -645,11 +660,10 @@ Section Proofs.
     pose proof (run_InB _ _ _ _ W B K' HR) as B1.
     unfold ctor.
     assert (E : with_default_bounds O c (args_of s) = args_of s).
-    { unfold with_default_bounds, args_of; simpl.
-      assert (ED : eff_dim (args_of s) = dim s).
+    { assert (ED : eff_dim (args_of s) = dim s).
       { unfold eff_dim; simpl. destruct (latlon s) eqn:L; auto.
         destruct W1 as (_ & _ & _ & _ & W5 & _). now destruct (W5 L) as (-> & _). }
-      unfold args_of in ED. rewrite ED, <- D1, <- D2, <- D3, <- D4, <- D5. reflexivity. }
+      unfold with_default_bounds. rewrite ED. unfold args_of; simpl. congruence. }
     rewrite E. now apply canonical.
   Qed.
 
@@ -673,20 +687,21 @@ Section Proofs.
     | SetArgBounds true _ => same_shape s s'
     end.
 
-  Lemma install_with_bounds a b s s1 : install a b s = Ok s1 ->
+  Lemma install_with_bounds a (b : Bnd) (s s1 : State) : install a b s = Ok s1 ->
     exists bv bl bn ba bo, s1 = with_bounds s bv bl bn ba bo.
   Proof.
-    destruct a; simpl; try (intros H; inversion H; eauto 10).
+    destruct a as [| | | |i]; simpl.
+    1-4: intros H; inversion H; eauto 10.
     destruct (i <? _); [|discriminate]. intros H; inversion H; eauto 10.
   Qed.
-  Lemma with_bounds_id s : with_bounds s (b_var s) (b_len s) (b_nug s) (b_anis s) (b_opts s) = s.
+  Lemma with_bounds_id (s : State) : with_bounds s (b_var s) (b_len s) (b_nug s) (b_anis s) (b_opts s) = s.
   Proof. destruct s; reflexivity. Qed.
 
   Lemma sab_loop_unchecked c kws : forall s vb s' vb', sab_loop O c false kws s vb = Ok (s', vb') ->
     exists bv bl bn ba bo, s' = with_bounds s bv bl bn ba bo.
   Proof.
     induction kws as [|[a b] rest IH]; intros s vb s' vb'; simpl.
-    - intros H; inversion H; subst. rewrite <- (with_bounds_id s') at 1. eauto 10.
+    - intros H; inversion H; subst. do 5 eexists. symmetry. apply with_bounds_id.
     - destruct (negb (valid_bnd O b)); [discriminate|].
       assert (G : forall s1, install a b s = Ok s1 -> sab_loop O c false rest s1 vb = Ok (s', vb') ->
                  exists bv bl bn ba bo, s' = with_bounds s bv bl bn ba bo).
@@ -704,13 +719,13 @@ Section Proofs.
     - unfold set_var. intros H. now apply checked_ok in H as [-> _].
     - unfold set_var_raw. intros H. now apply checked_ok in H as [-> _].
     - unfold set_nugget. intros H. now apply checked_ok in H as [-> _].
-    - intros H. destruct (set_len_spec _ _ _ _ W H) as (l & a & -> & _ & F & _); eauto.
-    - intros H. destruct (set_anis_op_spec _ _ _ _ W H) as (a & -> & _); eauto.
-    - intros H. destruct (set_angles_op_spec _ _ _ _ W H) as (a & -> & _); eauto.
+    - intros H. destruct (set_len_spec _ _ _ _ W H) as (l & a' & -> & _ & F & _); eauto.
+    - intros H. destruct (set_anis_op_spec _ _ _ _ W H) as (a' & -> & _); eauto.
+    - intros H. destruct (set_angles_op_spec _ _ _ _ W H) as (a' & -> & _); eauto.
     - intros H; inversion H. unfold set_rescale; eauto.
-    - intros H. destruct (set_dim_spec _ _ _ _ W H) as (d' & a & ang & -> & _ & _ & Ed & -> & ->). eauto.
+    - intros H. destruct (set_dim_spec _ _ _ _ W H) as (d' & a' & ang & -> & _ & _ & Ed & -> & ->). eauto.
     - intros H. now destruct (set_opt_spec _ _ _ _ _ W H) as (-> & _).
-    - intros H. destruct (set_int_scale_spec _ _ _ _ W H) as (l & a & -> & F & _); eauto.
+    - intros H. destruct (set_int_scale_spec _ _ _ _ W H) as (l & a' & -> & F & _); eauto.
     - destruct chk.
       + intros H. now destruct (set_arg_bounds_spec _ _ _ _ _ W H) as (_ & S & _).
       + unfold set_arg_bounds, bind. destruct (sab_loop O c false kws s None) as [[s1 vb]|] eqn:E; [|discriminate].
@@ -734,8 +749,8 @@ Section Proofs.
     intros H. unfold set_var_raw. destruct (checked O c (with_var_raw s v)) as [s'|e] eqn:E; eauto.
     apply checked_ok in E as [_ B]. apply InB_iff in B. destruct B as (B & _).
     exfalso. apply H. clear H. revert B. unfold var_of. simpl.
-    replace (var_factor O c (with_var_raw s v)) with (var_factor O c s); auto.
-    destruct c; reflexivity.
+    replace (var_factor O c (with_var_raw s v)) with (var_factor O c s) by (destruct c; reflexivity).
+    auto.
   Qed.
   Theorem len_scale_out_of_bounds_rejected c s ls :
     err_case O (b_len s) [hd (n0 O) (firstn (dim s) ls)] <> 0 -> exists e, set_len O c s ls = Error e.
